@@ -89,6 +89,7 @@ type Interp struct {
 	wrapped     map[*Object]Value // error wrapping side table
 	gzipUnder   map[*Object]Value
 	jsonSeq     int
+	jsonMsgs    map[*Object]Iface
 	threads     []*Thread
 	cur         *Thread
 	sched       *Sched
